@@ -29,7 +29,10 @@ _built = {}
 def cargo_env():
     e = dict(os.environ)
     e["CARGO_NET_OFFLINE"] = "true"
-    e.pop("RUSTFLAGS", None)  # the harness's .cargo/config.toml sets the cfg flag
+    # the harness's .cargo/config.toml sets the cfg flag and the (relative) target dir; an
+    # inherited override would make us run a stale binary
+    for k in ("RUSTFLAGS", "CARGO_TARGET_DIR", "CARGO_BUILD_TARGET_DIR", "CARGO_ENCODED_RUSTFLAGS", "CARGO_BUILD_RUSTFLAGS"):
+        e.pop(k, None)
     return e
 
 
@@ -81,7 +84,16 @@ def build_binary():
 
 # ---------------------------------------------------------------------------------------------
 # harness runs
-def _exec_harness(binp, jobs, outdir, tag, threads, timeout, stack_mb):
+def _limits(mem_gb):
+    def f():
+        import resource
+        lim = int(mem_gb * (1 << 30))
+        resource.setrlimit(resource.RLIMIT_AS, (lim, lim))
+        resource.setrlimit(resource.RLIMIT_CORE, (0, 0))
+    return f
+
+
+def _exec_harness(binp, jobs, outdir, tag, threads, timeout, stack_mb, mem_gb=None):
     jp = os.path.join(outdir, tag + ".jobs.ndjson")
     op = os.path.join(outdir, tag + ".out.ndjson")
     with open(jp, "w") as f:
@@ -90,9 +102,12 @@ def _exec_harness(binp, jobs, outdir, tag, threads, timeout, stack_mb):
     if os.path.exists(op):
         os.remove(op)
     status = "ok"
+    # address-space limit: a runaway recursion in the code under test must die quickly (it is
+    # reported as an abort of that job), not eat the machine
+    mem_gb = mem_gb or (threads * stack_mb / 1024.0 + 4.0)
     try:
         p = subprocess.run([binp, "exec", jp, op, "--threads", str(threads), "--stack-mb", str(stack_mb)],
-                           stdout=subprocess.PIPE, stderr=subprocess.PIPE, timeout=timeout)
+                           stdout=subprocess.PIPE, stderr=subprocess.PIPE, timeout=timeout, preexec_fn=_limits(mem_gb))
         if p.returncode != 0:
             status = "crash:%d" % p.returncode
     except subprocess.TimeoutExpired:
@@ -111,9 +126,16 @@ def _exec_harness(binp, jobs, outdir, tag, threads, timeout, stack_mb):
     return status, res
 
 
-def run_jobs(jobs, outdir, tag="jobs", threads=None, timeout=600, per_job_timeout=20, stack_mb=256):
+MAX_ATTRIBUTED_CRASHES = 6
+
+
+def run_jobs(jobs, outdir, tag="jobs", threads=None, timeout=600, per_job_timeout=15, stack_mb=64):
     """Runs jobs on the real code. Returns one result per job, in order. A job that kills the
-    process is re-run alone and reported as {"k":"abort"} / {"k":"timeout"} (data, not a tool error)."""
+    process (native stack overflow, abort, memory exhaustion) or hangs is re-run alone and reported
+    as {"k":"abort"} / {"k":"timeout"} - data, not a tool error. Jobs that merely shared a process with
+    a crashing one are re-run. After MAX_ATTRIBUTED_CRASHES crashes have been attributed the rest of
+    the missing jobs are returned as {"k":"skipped"}: they are neither passes nor violations (the
+    attributed ones already make the check fail) - this bounds the time spent on code that crashes a lot."""
     binp = build_harness()
     os.makedirs(outdir, exist_ok=True)
     threads = threads or min(NCPU, 12)
@@ -121,30 +143,35 @@ def run_jobs(jobs, outdir, tag="jobs", threads=None, timeout=600, per_job_timeou
     missing = [i for i in range(len(jobs)) if i not in res]
     if missing and status == "ok":
         raise ToolError("harness lost results without crashing")
+    attributed = 0
     rounds = 0
-    while missing:
+    while missing and attributed < MAX_ATTRIBUTED_CRASHES:
         rounds += 1
-        if len(missing) > 64 or rounds > 40:
-            # many missing: run them again in one process first (most were innocent bystanders)
+        if len(missing) > 24 and rounds <= 8:
+            # many missing: most were innocent bystanders of one crash; run them again together,
+            # single-threaded chunks so that a crash loses little
             sub = [jobs[i] for i in missing]
-            st2, r2 = _exec_harness(binp, sub, outdir, tag + ".retry%d" % rounds, max(1, threads // 2), timeout, stack_mb)
-            progressed = False
+            st2, r2 = _exec_harness(binp, sub, outdir, tag + ".retry", 1 if rounds > 2 else max(1, threads // 2),
+                                    timeout, stack_mb)
+            got = 0
             for k, i in enumerate(missing):
                 if k in r2:
-                    r = r2[k]; r["idx"] = i; res[i] = r; progressed = True
+                    r = r2[k]; r["idx"] = i; res[i] = r; got += 1
             missing = [i for i in missing if i not in res]
-            if progressed and len(missing) > 64:
+            if got:
                 continue
-        # attribute one by one
-        for i in list(missing)[:64]:
-            st, r1 = _exec_harness(binp, [jobs[i]], outdir, tag + ".solo", 1, per_job_timeout, stack_mb)
-            if 0 in r1:
-                r = r1[0]; r["idx"] = i; res[i] = r
-            else:
-                kind = "timeout" if st == "timeout" else "abort"
-                res[i] = {"idx": i, "id": jobs[i].get("id"), "k": kind, "status": st,
-                          "results": [{"k": kind, "status": st}]}
+        i = missing[0]
+        st, r1 = _exec_harness(binp, [jobs[i]], outdir, tag + ".solo", 1, per_job_timeout, stack_mb, mem_gb=3.0)
+        if 0 in r1:
+            r = r1[0]; r["idx"] = i; res[i] = r
+        else:
+            kind = "timeout" if st == "timeout" else "abort"
+            attributed += 1
+            res[i] = {"idx": i, "id": jobs[i].get("id"), "k": kind, "status": st,
+                      "results": [{"k": kind, "status": st}], "crashed": True}
         missing = [i for i in range(len(jobs)) if i not in res]
+    for i in missing:
+        res[i] = {"idx": i, "id": jobs[i].get("id"), "k": "skipped", "results": [{"k": "skipped"}], "skipped": True}
     return [res[i] for i in range(len(jobs))]
 
 
